@@ -136,10 +136,20 @@ inductive Instr where
   | swap | dup | drop | dig (n : Nat) | dug (n : Nat)
   deriving Repr
 
-/-- `ci` = annotation test of `iter_comb`, `cu` = of `unpairn_comb` -/
-def step (ci cu : Bool) : Instr → List CVal → Option (List CVal)
-  | .getN n, v :: st => if v.isPair then (accessComb ci v n).map (· :: st) else none
-  | .updateN n, e :: v :: st => if v.isPair then (updateComb ci v n e).map (· :: st) else none
+/-- `ci` = annotation test of `iter_comb`, `cu` = of `unpairn_comb`;
+`zg` / `zu` = shape of `GetnInstruction.execute` / `UpdatenInstruction.execute` (read from adt.py by the translator):
+`true`  — `index = …; if index == 0: res = pair (resp. element) else: pair.assert_type_in(PairType); res = pair.access_comb(index)
+           (resp. pair.update_comb(index, element))`: `GET 0` / `UPDATE 0` never look at the types;
+`false` — `pair.assert_type_in(PairType); index = …; res = pair.access_comb(index)` (resp. `update_comb`): pair assertion first,
+           helper called for every `n` (the shape before fixes 794044f / 18f9cf1).
+`UPDATE 0` in the `true` shape pushes `element` itself (its classes, hence its annotations, untouched — no `from_comb` rebuild). -/
+def step (ci cu zg zu : Bool) : Instr → List CVal → Option (List CVal)
+  | .getN n, v :: st =>
+    if zg && n == 0 then some (v :: st)
+    else if v.isPair then (accessComb ci v n).map (· :: st) else none
+  | .updateN n, e :: v :: st =>
+    if zu && n == 0 then some (e :: st)
+    else if v.isPair then (updateComb ci v n e).map (· :: st) else none
   | .pairN n, st =>
     if n ≥ 2 ∧ st.length ≥ n then (fromComb (st.take n)).map (· :: st.drop n) else none
   | .unpairN n, v :: st => if n ≥ 2 ∧ v.isPair then some (unpairnComb cu (n - 2) v ++ st) else none
@@ -156,13 +166,16 @@ def step (ci cu : Bool) : Instr → List CVal → Option (List CVal)
   | .dug n, x :: st => if st.length ≥ n then some (st.take n ++ x :: st.drop n) else none
   | _, _ => none
 
-def exec (ci cu : Bool) : List Instr → List CVal → Option (List CVal)
+def exec (ci cu zg zu : Bool) : List Instr → List CVal → Option (List CVal)
   | [], st => some st
-  | i :: is, st => (step ci cu i st).bind (exec ci cu is)
+  | i :: is, st => (step ci cu zg zu i st).bind (exec ci cu zg zu is)
 
 /-- the flags of the source under test; an unrecognised body counts as annotation-dependent (the theorems then do not close) -/
 def chkIter : Bool := Generated.C17.iterCombAnnotTest.getD true
 def chkUnpairn : Bool := Generated.C17.unpairnCombAnnotTest.getD true
+/-- shape of GET n / UPDATE n of the source under test; an unrecognised body counts as the defective shape -/
+def zeroGet : Bool := Generated.C17.getnZeroIdentity.getD false
+def zeroUpd : Bool := Generated.C17.updatenZeroReplaces.getD false
 
 end Impl.Comb
 
